@@ -27,7 +27,7 @@ SS = [None, 0.0, 15.302888746272764]
 TREFS = [298.15, 298.0, 300.0]
 GROUP = 'C(C)(H)3'
 BOUND = {t: 'table sizes %s (with and without a zero entry) x 5 H x 3 S x 2 '
-            'ranges x 3 T_ref x {built directly, loaded from a file} x 19 unit '
+            'ranges x 3 T_ref x {built directly, loaded from a file, dict in descending order, point merged in later} x 19 unit '
             'choices x {tagged load, embedded in a library file}; every group of '
             '9 shipped libraries x 19 unit choices'
             % ([0, 1, 2, 3] if t == 'quick' else [0, 1, 2, 3, 7, 15])
@@ -79,9 +79,17 @@ def family(tier):
                         yield dict(tab=tab, H=H, S=S, rng=rng, tref=tref)
 
 
-def build_direct(c):
+def build_direct(c, how='direct'):
     from pgradd.ThermoChem import ThermochemGroup
-    return ThermochemGroup(c['H'], c['S'], dict(c['tab']), c['tref'], c['rng'])
+    items = sorted(c['tab'].items())
+    if how == 'direct':
+        return ThermochemGroup(c['H'], c['S'], dict(items), c['tref'], c['rng'])
+    if how == 'descending':       # table dict built in descending temperature order
+        return ThermochemGroup(c['H'], c['S'], dict(reversed(items)), c['tref'], c['rng'])
+    # 'merged': the second point arrives later through update()
+    k = ThermochemGroup(c['H'], c['S'], dict(items[:1] + items[2:]), c['tref'], c['rng'])
+    k.update(ThermochemGroup(None, None, dict(items[1:2]), c['tref'], c['rng']))
+    return k
 
 
 def lib_text(body, indent=6):
@@ -209,11 +217,15 @@ def run_family(R, i, n, tier, only=None):
                       0.0 in c['tab'].values() or not c['tab'])
         label = 'H=%r S=%r Cp=%r range=%r T_ref=%r' % (
             c['H'], c['S'], sorted(c['tab'].items())[:3], c['rng'], c['tref'])
-        for built in ('direct', 'loaded'):
+        for built in ('direct', 'loaded', 'descending', 'merged'):
             if only is not None and built != only[1]:
                 continue
+            if built in ('descending', 'merged') and (
+                    len(c['tab']) < 2 or (built == 'merged' and (
+                        len(c['tab']) < 3 or c['rng'] is None))):
+                continue
             try:
-                src = build_direct(c) if built == 'direct' else build_loaded(c)
+                src = build_loaded(c) if built == 'loaded' else build_direct(c, built)
             except Exception as e:      # noqa
                 R.evals += 1
                 R.outcomes['source-unbuildable:' + type(e).__name__] += 1
